@@ -789,3 +789,134 @@ class LsCandProp(PipeProp):
 
 
 REGISTRY["C11"] = LsCandProp()
+
+
+# =========================================================================== C18 HTTP service
+import httpdrive  # noqa: E402
+
+C18_INVS = ["P_C18_answered", "P_C18_health", "P_C18_own_solution", "P_C18_malformed", "P_C18_invalid", "P_C18_alive"]
+
+
+class ServerProp:
+    def model(self, out, tier):
+        # design level: invariants + liveness on 3 clients, 1 and 2 handler threads
+        for w in (1, 2):
+            res = common.run_tlc("MC_Server", spec="MCSpec",
+                                 invariants=["MCTypeOK", "MCOwnAnswer", "MCServerStaysUp", "MCThreadsConserved"],
+                                 properties=["MCEveryRequestAnswered", "MCTermination"],
+                                 constants={"MCWorkers": str(w), "MCEmit": "FALSE", "MCClients": "3"},
+                                 workers=4, timeout=600, cont=False)
+            out.add_tlc("MC_Server(clients=3,threads=%d)" % w, res)
+            if res.violations:
+                raise ToolError("Server.tla violates its own properties: %s" % res.violations[0])
+        # emission of all complete schedules of two clients (health/solve/health || malformed/solve)
+        res = common.run_tlc("MC_Server", spec="MCSpec",
+                             invariants=["MCOwnAnswer", "MCServerStaysUp", "MCEmitSchedule"],
+                             constants={"MCWorkers": "2", "MCEmit": "TRUE", "MCClients": "2"},
+                             workers=4, timeout=600, cont=False)
+        out.add_tlc("MC_Server(emit,clients=2)", res)
+        scheds = []
+        for line in res.output.splitlines():
+            if line.startswith('<<"CASE", '):
+                scheds.append(json.loads(json.loads(line[len('<<"CASE", '):-2]))["sched"])
+        return scheds
+
+    def third_client(self, sched, k):
+        """Interleave the invalid-body client (x1, v3, h3) into a two-client schedule at a
+        position derived from k (the three-client history space is sampled, not enumerated)."""
+        extra = [["send", "x1"], ["finish", "x1"], ["send", "v3"], ["finish", "v3"], ["send", "h3"], ["finish", "h3"]]
+        out = list(sched)
+        pos = k % (len(out) + 1)
+        for i, e in enumerate(extra):
+            pos = min(len(out), pos + (1 if i else 0) + ((k >> (i + 1)) % 2))
+            out.insert(pos, e)
+        return out
+
+    def run(self, prop, tier, seed, only=None):
+        out = Outcome()
+        scheds = self.model(out, tier)
+        if not scheds:
+            raise ToolError("MC_Server emitted no schedule")
+        import random
+        rng = random.Random(seed)
+        n = 36 if tier == "quick" else len(scheds)
+        chosen = scheds if n >= len(scheds) else rng.sample(scheds, n)
+        chosen = [self.third_client(s, k) if k % 2 == 0 else s for k, s in enumerate(chosen)]
+        if tier != "quick":
+            # 16-way concurrent bursts of valid requests mixed with faults
+            for b in range(6):
+                ids = ["v%d" % (10 + i) for i in range(12)] + ["x%d" % (10 + i) for i in range(2)] + \
+                      ["m%d" % (10 + i) for i in range(2)]
+                rng.shuffle(ids)
+                chosen.append([["send", r] for r in ids] + [["finish", r] for r in ids])
+        if only is not None:
+            chosen = [only]
+        exe = httpdrive.build_server()
+        pool = [gen.gen_instance(seed + 900 + i, i, max_trips=8) for i in range(24)]
+
+        def inst_of(k, r):
+            base = pool[(k * 7 + sum(ord(ch) for ch in r)) % len(pool)]
+            return httpdrive.rename_ids(base, "%s%d" % (r, k))
+
+        results = []
+        server = httpdrive.Server(exe)
+        try:
+            for k, sched in enumerate(chosen):
+                if not server.alive():
+                    server = httpdrive.Server(exe)
+                instances = {s[1]: inst_of(k, s[1]) for s in sched if s[0] == "send" and s[1][0] in "vx"}
+                httpdrive.run_schedule(server, sched, k, instances, results)
+        finally:
+            server.stop()
+        trace = httpdrive.build_trace(results, inst_of)
+        d = common.cache_dir("http_%d" % os.getpid())
+        tp = os.path.join(d, "trace.ndjson")
+        common.write_ndjson(tp, trace)
+        viols = run_tlc_chunks("TraceServer", C18_INVS, [tp], "TraceServer", out)
+        for ci, v in viols:
+            ev = trace[v["l"] - 1]
+            k = ev.get("sched", 0)
+            sig = "%s:%s" % (v["name"], ev.get("kind", ev["ev"]))
+            payload = {"property": prop, "kind": "http", "formula": v["name"], "signature": sig, "schedule": chosen[k],
+                       "seed": seed, "event": {x: ev[x] for x in ev if x != "O"}}
+            out.findings.append(Finding(prop, v["name"], "sched%d/%s" % (k, ev.get("r", "")), sig,
+                                        "status=%s closed=%s body=%s" % (ev.get("status"), ev.get("closed"), ev.get("body", "")[:60]),
+                                        payload))
+        os.remove(tp)
+        kinds = {}
+        overlap = 0
+        for k, sched, o, probe, alive in results:
+            for r, rec in o.items():
+                kk = rec["kind"] + (":closed" if rec["closed"] else ":%d" % rec["status"])
+                kinds[kk] = kinds.get(kk, 0) + 1
+            inflight = 0
+            for s in sched:
+                inflight += 1 if s[0] == "send" else -1
+                overlap = max(overlap, inflight)
+        out.traces += len(results)
+        out.coverage.update({"schedules_replayed": len(results), "schedules_emitted_by_model": len(scheds),
+                             "exchanges": kinds, "max_requests_in_flight": overlap, "formulas": C18_INVS})
+        need = ["health:200", "valid:200", "malformed:400", "invalid:closed"]
+        missing = [x for x in need if not kinds.get(x)]
+        if missing and only is None:
+            raise ToolError("vacuous C18 corpus: no exchange of kind %s (seen %s)" % (missing, kinds))
+        out.samples.append({"schedule": chosen[0]})
+        out.assumptions = [
+            "interleavings are controlled at request granularity (send order and overlap as in the schedules emitted by "
+            "MC_Server; the invalid-body client and, in the thorough tier, 16-way bursts are interleaved by sampling)",
+            "the real server binary is built from /repo's working tree and run as a separate process; valid requests carry "
+            "instances with request-specific segment ids, so an answer to another request's instance cannot pass",
+        ]
+        return out
+
+    def replay(self, prop, path):
+        with open(path) as f:
+            payload = json.load(f)
+        return self.run(prop, "quick", payload.get("seed", 1), only=payload["schedule"])
+
+    def selftest(self, prop, tier, seed):
+        import selftest
+        return selftest.server(prop, tier, seed)
+
+
+REGISTRY["C18"] = ServerProp()
